@@ -142,6 +142,40 @@ class DepGraph(object):
         return best
 
 
+# ----------------------------------------------------------------- annotations
+
+def ann_lines(prog):
+    """@OrderBy / @Limit statements for prog['order_by'] {pred: [(field, desc)..]} and
+    prog['limit'] {pred: k} (the maps the reference evaluator reads)."""
+    out = []
+    for name in sorted(prog.get('order_by') or {}):
+        keys = ['"%s%s"' % ('col%d' % c if isinstance(c, int) else c,
+                            ' desc' if desc else '')
+                for c, desc in prog['order_by'][name]]
+        out.append('@OrderBy(%s, %s);' % (name, ', '.join(keys)))
+    for name in sorted(prog.get('limit') or {}):
+        out.append('@Limit(%s, %d);' % (name, prog['limit'][name]))
+    return out
+
+
+def rename_program(prog, m):
+    """The same program with predicates renamed by the injective map m."""
+    ren = lambda n: m.get(n, n)
+    p = dict(prog)
+    p['rules'] = [dict(_map_rule_preds(r, ren), pred=ren(r['pred']))
+                  for r in prog['rules']]
+    p['make'] = [(ren(n), ren(f), tuple((ren(a), ('pred', ren(v[1])) if v[0] == 'pred'
+                                         else v) for a, v in args))
+                 for n, f, args in norm_makes(prog.get('make'))]
+    for k in ('order_by', 'limit', 'sig'):
+        if prog.get(k):
+            p[k] = {ren(a): b for a, b in prog[k].items()}
+    if 'preds' in prog:
+        p['preds'] = [ren(x) for x in prog['preds']]
+    p['ann'] = ann_lines(p)
+    return p
+
+
 # ----------------------------------------------------------------- substitution by hand
 
 def expand(prog):
@@ -161,6 +195,8 @@ def expand(prog):
     counter = [0]
     const_pred = {}
     info = {'makes': {}, 'origin': {}}
+    order_by = dict(prog.get('order_by') or {})
+    limit = dict(prog.get('limit') or {})
 
     def fresh(base):
         while True:
@@ -216,6 +252,12 @@ def expand(prog):
                     r2['pred'] = m[r['pred']]
                     new_rules.append(r2)
             rules = rules + new_rules
+            # a copy keeps the ordering / limit of the predicate it is a copy of
+            for old, new in list(clones.items()) + [(functor, name)]:
+                if old in order_by:
+                    order_by[new] = order_by[old]
+                if old in limit:
+                    limit[new] = limit[old]
             info['makes'][name] = {'keys': keys, 'clones': dict(clones),
                                    'functor': functor}
             pending = [x for x in pending if x[0] != name]
@@ -225,6 +267,9 @@ def expand(prog):
             raise InvalidApplication('functor applications depend on each other')
     p2 = {k: v for k, v in prog.items() if k not in ('make', 'make_at')}
     p2['rules'] = rules
+    if order_by or limit:
+        p2['order_by'], p2['limit'] = order_by, limit
+        p2['ann'] = ann_lines(p2)
     return p2, info
 
 
@@ -347,8 +392,29 @@ def make_features(prog):
         f.add('clones%d' % min(nclones, 4))
         if functor in made:
             f.add('functor_is_made')
-        if set(g.reach(functor)) & made:
+        below = [m for m in g.reach(functor) if m in made]
+        if below:
             f.add('functor_reaches_made')
+            if any(m not in g.direct(functor) for m in below):
+                f.add('reaches_made_only_via_intermediate')
+            if any(a in g.reach(m) for m in below for a in keys):
+                f.add('arg_below_made')
+                if any(a in g.reach(m) and a in g.direct(functor)
+                       for m in below for a in keys):
+                    f.add('arg_below_made_and_direct')
+        lim = x.get('limit') or {}
+        if functor in lim:
+            f.add('functor_has_limit')
+        if any(q in lim for q in g.reach(functor)):
+            f.add('limit_in_definition')
+        if any(c in lim for c in info['makes'][name]['clones']):
+            f.add('copied_predicate_has_limit')
+        vals = [v[1] for a, v in args if v[0] == 'pred']
+        if any(v in keys for v in vals):
+            f.add('value_is_other_arg')
+            if any(dict(args).get(v[1]) == ('pred', a) for a, v in args
+                   if v[0] == 'pred'):
+                f.add('args_swapped')
         for a, v in args:
             if a in made:
                 f.add('arg_is_made')
@@ -409,7 +475,7 @@ FDEFAULTS = dict(
     steps=(3, 6), p_chain=0.8, p_second_must=0.25, p_const_use=0.45,
     p_colnames=0.0, p_neg=0.08, p_agg=0.1, p_distinct=0.25, p_or=0.12, p_fcall=0.1,
     agg_ops=('Sum', 'Min', 'Max', '+'), p_two_rules=0.2, p_composite_col=0.1,
-    max_pred_rows=30, max_rows=4,
+    max_pred_rows=30, max_rows=4, p_cross=0.3, p_twin_edb=0.5, p_annotate=0.2, p_deep=0.2,
 )
 
 
@@ -428,6 +494,8 @@ class FGen(gen.Gen):
         self.idbs = []
         self.consumers = []
         self.counter = collections.Counter()
+        self.order_by = {}
+        self.limit = {}
 
     # -- hooks into Gen
     def new_sig(self, allow_composite=False, named_p=None):
@@ -491,8 +559,9 @@ class FGen(gen.Gen):
             self.o['p_distinct'] = saved
 
     def evaluator(self, budget=100000):
-        return FunctorEval({'rules': self.rules, 'inj': self.inj}, makes=self.makes,
-                           budget=budget)
+        return FunctorEval({'rules': self.rules, 'inj': self.inj,
+                            'order_by': self.order_by, 'limit': self.limit},
+                           makes=self.makes, budget=budget)
 
     # -- building blocks
     def fresh(self, prefix):
@@ -696,8 +765,34 @@ class FGen(gen.Gen):
 
         def args_fn(g):
             keys = self.pick_keys(functor, g)
+            cross = self.cross_bindings(functor, g, keys)
+            if cross:
+                return cross
             return [(a, self.value_for(a, g, avoid=keys)) for a in keys]
         return self.try_make(functor, args_fn)
+
+    def cross_bindings(self, functor, g, keys):
+        """Simultaneous substitution: the value of one argument is the NAME of another
+        argument of the same call: F(A: B, B: C) or F(A: B, B: A)."""
+        rng = self.rng
+        if not keys or rng.random() >= self.o['p_cross']:
+            return None
+        src = set(self.src())
+        copied = rebind_ambiguous(g, functor) if EXCLUDE_REBIND_COPIED else set()
+        cands = [p for p in g.reach(functor) if p in src and p not in copied]
+        pairs = [(a, b) for a in keys for b in cands if a != b and self.same_sig(a, b)]
+        if not pairs:
+            return None
+        a, b = rng.choice(pairs)
+        rest = [k for k in keys if k not in (a, b)][:1]
+        if rng.random() < 0.5:
+            args = [(a, ('pred', b)), (b, ('pred', a))]
+        else:
+            args = [(a, ('pred', b)), (b, self.value_for(b, g, avoid=[a, b] + rest))]
+        if rng.random() < 0.5:
+            args.reverse()
+        args += [(k, self.value_for(k, g, avoid=[a, b] + rest)) for k in rest]
+        return args
 
     def step_repeat(self):
         rng = self.rng
@@ -747,11 +842,66 @@ class FGen(gen.Gen):
         self.consumers.append(name)
         return name
 
+    def step_deep(self):
+        """NEW := F(A: X) where F reaches a made predicate M only through an
+        intermediate predicate, M depends on A, and F also reads A directly."""
+        rng = self.rng
+        g = self.graph()
+        src = set(self.src())
+        made = [m[0] for m in self.makes if m[0] not in self.consts]
+        opts = []
+        for m in made:
+            copied = rebind_ambiguous(g, m) if EXCLUDE_REBIND_COPIED else set()
+            for a in g.reach(m):
+                if a in src and a not in copied and a not in made:
+                    opts.append((m, a))
+        if not opts:
+            return None
+        m, a = rng.choice(opts)
+        g0 = self.fresh('G')
+        self.define(g0, [m])
+        self.consumers.append(g0)
+        g1 = self.fresh('G')
+        if a in self.consts:
+            self.define(g1, [g0], mconst=[a])
+        else:
+            self.define(g1, [g0, a])
+        self.consumers.append(g1)
+
+        def args_fn(g):
+            if EXCLUDE_REBIND_COPIED and a in rebind_ambiguous(g, g1):
+                return []
+            return [(a, self.value_for(a, g, avoid=[a]))]
+        return self.try_make(g1, args_fn)
+
+    def maybe_annotate(self, name):
+        """@OrderBy over ALL columns (total order up to identical rows) + @Limit K on an
+        intermediate predicate: copies made by functor applications must keep it."""
+        rng = self.rng
+        sig = self.sig[name]
+        if sig['value'] or not all(t in gen.ATOMS for f, t in sig['fields']):
+            return
+        try:
+            rows = self.evaluator().rows(name)
+        except Exception:
+            return
+        if len(rows) < 2 or any(v is None for r in rows for v in r.values()):
+            return
+        fields = [f for f, t in sig['fields']]
+        rng.shuffle(fields)
+        self.order_by[name] = [(f, rng.random() < 0.4) for f in fields]
+        self.limit[name] = rng.randint(1, len(rows) - 1)
+        self.labels.add('order_by_limit')
+
     # -- whole program
     def program(self):
         rng, o = self.rng, self.o
         for i in range(rng.randint(*o['n_edb'])):
             self.add_edb(self.fresh('E'))
+        if self.chance(o['p_twin_edb']):
+            # two fact predicates of one signature from the start: both end up in one
+            # functor's definition, so that F(A: B, B: C) / F(A: B, B: A) can be drawn
+            self.add_edb(self.fresh('E'), self.sig[rng.choice(self.everything)])
         for i in range(rng.choice(o['n_const'])):
             self.add_const(self.fresh('K'))
         for i in range(rng.randint(*o['n_inj'])):
@@ -773,6 +923,8 @@ class FGen(gen.Gen):
             self.define(name, must, may, mconst, okconst=consts)
             self.idbs.append(name)
             prev = name
+            if not self.order_by and self.chance(o['p_annotate']):
+                self.maybe_annotate(name)
         self.step_new()
         for _ in range(rng.randint(*o['steps']) - 1):
             r = rng.random()
@@ -786,6 +938,8 @@ class FGen(gen.Gen):
                 self.step_consumer()
             else:
                 self.step_new(on_made=True) or self.step_repeat()
+        if self.chance(o['p_deep']):
+            self.step_deep()
         return self.result()
 
     def result(self):
@@ -805,6 +959,9 @@ class FGen(gen.Gen):
                                                  else v[1]]] for a, v in args]]
                      for n, f, args in self.makes]
         p['make_at'] = [self.rng.randint(0, len(self.rules)) for _ in self.makes]
+        p['order_by'] = {k: [list(x) for x in v] for k, v in self.order_by.items()}
+        p['limit'] = dict(self.limit)
+        p['ann'] = ann_lines(p)
         return p
 
 
